@@ -1077,9 +1077,51 @@ func ttlFieldOrigin(c *Ctx, f *ssa.Function, fname string, depth int) (int, stri
 	return found, fpath, what
 }
 
+// checkEnginesValidate is R19.4e: both engines run the parameter validation that rejects MinTTL > MaxTTL and MinTTL < 1 (found
+// by role: the method of common whose paths compare the receiver's MinTTL with its MaxTTL). A same-named method on an outer struct
+// that embeds the parameters silently replaces the promoted one at an unchanged call site.
+func checkEnginesValidate(c *Ctx) {
+	R := c.R
+	var vf *ssa.Function
+	for _, f := range c.P.ModFuncs {
+		if core.ShortPkg(core.FuncPkg(f)) != "common" || f.Signature.Recv() == nil || len(f.Blocks) == 0 || f.Synthetic != "" {
+			continue
+		}
+		if f.Signature.Results().Len() != 1 || !isErrorType(f.Signature.Results().At(0).Type()) {
+			continue
+		}
+		rps, _ := core.ReturnPaths(c.P, f, 500)
+		for _, rp := range rps {
+			for _, a := range rp.Atoms {
+				s := a.Cond.String()
+				if a.Cond.Op == "binop" && strings.Contains(s, "recv.MinTTL") && strings.Contains(s, "recv.MaxTTL") {
+					vf = f
+				}
+			}
+		}
+	}
+	if vf == nil {
+		R.Fail("R19.4", "common#range-validation", 0, "", "no method of package common compares the receiver's MinTTL with its MaxTTL: anchor lost")
+		return
+	}
+	n := 0
+	for _, e := range Engines(c.P) {
+		n++
+		reached := false
+		for _, g := range ModReach(c.P, e.Fn) {
+			if g == vf {
+				reached = true
+			}
+		}
+		R.Check(reached, "R19.4", e.Name+"#validates-range", e.Fn.Pos(), e.Name, "the engine runs "+core.FuncName(vf), "the engine never calls "+core.FuncName(vf)+" (the check MinTTL <= MaxTTL, MinTTL >= 1): an inverted range reaches the result table, whose re-slicing by MinTTL panics or yields an empty path instead of an error")
+	}
+	R.Floor("R19.4:engines-validate", n, 2)
+}
+
 // checkTTLPlumbing is R19.4.
 func checkTTLPlumbing(c *Ctx) {
 	R := c.R
+	checkEnginesValidate(c)
 	// (a) constructor arguments are plain narrowings of params.MinTTL / MaxTTL
 	ctors := map[string][2]int{"udp.NewUDPv4": {2, 3}, "tcp.NewTCPv4": {2, 3}, "traceroute.makeSackParams": {2, 3}}
 	n := 0
